@@ -3,6 +3,7 @@ package storesim
 import (
 	"context"
 	"encoding/json"
+	"errors"
 	"fmt"
 	"os"
 	"path/filepath"
@@ -24,7 +25,7 @@ type engine struct{}
 func init() { harness.Register(engine{}) }
 
 func (engine) Name() string    { return "storesim" }
-func (engine) Props() []string { return []string{"C01", "C03", "C12", "C13"} }
+func (engine) Props() []string { return []string{"C01", "C03", "C11", "C12", "C13"} }
 
 func (e engine) Gen(prop, tier string, run int, r *simcore.Rand) *harness.Plan {
 	switch prop {
@@ -32,6 +33,8 @@ func (e engine) Gen(prop, tier string, run int, r *simcore.Rand) *harness.Plan {
 		return genC01(tier, run, r)
 	case "C03":
 		return genC03(tier, run, r)
+	case "C11":
+		return genC11(tier, run, r)
 	case "C12":
 		return genC12(tier, run, r)
 	case "C13":
@@ -114,10 +117,22 @@ func genC01(tier string, run int, r *simcore.Rand) *harness.Plan {
 	return p
 }
 
-func (e engine) Exec(rc *harness.RunCtx, p *harness.Plan) *harness.Outcome {
+func (e engine) Exec(rc *harness.RunCtx, p *harness.Plan) (out *harness.Outcome) {
+	defer func() {
+		if r := recover(); r != nil {
+			if r == errStepBudget {
+				out = &harness.Outcome{Inconclusive: "scheduler step budget exhausted"}
+				return
+			}
+			panic(r)
+		}
+	}()
 	var cfg Config
 	if err := json.Unmarshal(p.Config, &cfg); err != nil {
 		return &harness.Outcome{Inconclusive: "bad config: " + err.Error()}
+	}
+	if p.Mode == "encrypt" {
+		return execC11(rc, p, &cfg)
 	}
 	if p.Mode == "quorum" {
 		ops := make([]c12Op, len(p.Ops))
@@ -271,8 +286,15 @@ func (s *session) task(f func()) error {
 		return nil
 	}
 	s.rc.Sched.Go("c0", f)
-	return s.rc.Sched.Run()
+	err := s.rc.Sched.Run()
+	if errors.Is(err, simcore.ErrSteps) {
+		// budget of the harness, not a property of perkeep
+		panic(errStepBudget)
+	}
+	return err
 }
+
+var errStepBudget = errors.New("scheduler step budget exhausted")
 
 func shapeKey(cfg *Config, ops []sim.Op, extra string) string {
 	var sb strings.Builder
